@@ -58,5 +58,10 @@ cglue_trait_group!(GAlias, { Tzed = Mzed, Tabc = Nabc }, { Tyop = Abop, Tbop = Z
 cglue_impl_group!(Imp, GAlias, { Tyop = Abop, Tbop = Zyop });
 cglue_impl_group!(ImpY, GAlias, { Tyop = Abop });
 
+/// mixed-case names: "name order" is the plain (case-sensitive) order of the identifiers, the same
+/// order a C consumer gets from the field names in the published header
+cglue_trait_group!(GCase, { Tzed = MAb, Tabc = Maa }, { Tyop = OPb, Tbop = Opa });
+cglue_impl_group!(Imp, GCase, { Tyop = OPb, Tbop = Opa });
+
 #[cfg(kani)]
 mod verif;
